@@ -113,7 +113,12 @@ func genInteriorDeleteCase(r *rand.Rand, cfg Cfg) Case {
 	for _, k := range ks[:nd] {
 		ops = append(ops, opDel(1, k, m[k]), "hsync 1", "vcheck")
 	}
-	// now the other loaded tree works on the (shared) nodes next to the deleted keys
+	// now the other loaded tree works on the (shared) nodes next to the deleted keys: first the
+	// same kind of deletes (in another order), then random work
+	perm := r.Perm(nd)
+	for _, pi := range perm[:1+r.Intn(nd)] {
+		ops = append(ops, opDel(2, ks[pi], m[ks[pi]]), "hsync 2", "vcheck")
+	}
 	for i := 0; i < 3+r.Intn(6); i++ {
 		k := pick(r, uni)
 		if r.Intn(3) == 0 {
